@@ -36,6 +36,8 @@ RUN_BUILT = os.path.join(common.BUILD, "ocaml", "gc", "run")
 RUN = RUN_BUILT          # replaced by a private copy while a check is running
 CORPUS = os.path.join(common.VERIF, "corpus", "C09")
 NPROC = 16
+LARGE_K = 60000            # sparse dump mode of the large profile: full dump every K operations
+LARGE_FROM = 5000          # heaps above this size: reference allocator `sim` + sparse dumps
 ASAN_ENV = "detect_leaks=1:abort_on_error=0:exitcode=99:allocator_may_return_null=1"
 UBSAN_ENV = "print_stacktrace=1:halt_on_error=1"
 
@@ -51,60 +53,105 @@ def drv_env(leaks=True):
 # parsing a dump
 # ------------------------------------------------------------------------------------------
 class State(object):
-    __slots__ = ("idx", "op", "res", "fhead", "free", "w", "lists", "tops", "marks", "cells", "body")
+    __slots__ = ("idx", "op", "res", "fhead", "free", "w", "lists", "tops", "marks", "cells", "body", "sparse")
+
+    def summary(self):
+        """(free head, w_index, wb_top[0], wb_top[1]) as strings"""
+        return (self.fhead, self.w, self.tops[0], self.tops[1])
 
 
-def parse_dump(text):
-    """-> (states, trailer_lines, error).  Cells / references are kept as strings."""
-    states = []
+class DumpError(Exception):
+    pass
+
+
+def split_trailer(text):
+    """-> (dump text, trailer lines): the trailer = final lines starting with '#' or '!'"""
     trailer = []
+    end = len(text)
+    while end > 0:
+        j = text.rfind("\n", 0, end - 1) if text[end - 1:end] == "\n" else text.rfind("\n", 0, end)
+        line = text[j + 1:end].rstrip("\n")
+        if line == "" or line[0] in "#!":
+            if line:
+                trailer.insert(0, line)
+            if j < 0:
+                end = 0
+                break
+            end = j + 1
+        else:
+            break
+    return text[:end], trailer
+
+
+def iter_dump(text):
+    """generator of State over a dump (full blocks and sparse '~' blocks); raises DumpError.
+    Cells / references are kept as strings."""
     if not text.startswith("@ "):
-        return states, [text[:200]], "dump does not start with '@ '"
+        raise DumpError("dump does not start with '@ '")
     parts = text[2:].split("\n@ ")
     for k, part in enumerate(parts):
         lines = part.split("\n")
-        if k == len(parts) - 1:
-            while lines and (lines[-1] == "" or lines[-1][0] in "#!"):
-                ln = lines.pop()
-                if ln:
-                    trailer.insert(0, ln)
-        if len(lines) < 7:
-            return states, trailer, "truncated block %d" % k
+        while lines and lines[-1] == "":
+            lines.pop()
         st = State()
-        head = lines[0].split(" ", 1)
-        st.idx = int(head[0])
-        st.op = head[1] if len(head) > 1 else ""
-        st.res = lines[1]
         try:
+            head = lines[0].split(" ", 1)
+            st.idx = int(head[0])
+            st.op = head[1] if len(head) > 1 else ""
+            st.res = lines[1]
+            if len(lines) == 3 and lines[2][:2] == "~ ":
+                f = lines[2].split(" ")
+                if len(f) != 5:
+                    raise ValueError(lines[2])
+                st.sparse = True
+                st.fhead, st.w, st.tops = f[1], f[2], (f[3], f[4])
+                st.free = st.lists = st.marks = st.cells = None
+                st.body = lines[2]
+                yield st
+                continue
+            if len(lines) < 7:
+                raise ValueError("truncated block")
+            st.sparse = False
             f = lines[2].split(" ")
             if f[0] != "free" or f[2] != ":":
-                raise ValueError(lines[2])
+                raise ValueError(lines[2][:80])
             st.fhead = f[1]
             st.free = f[3:]
             if lines[3][:2] != "w ":
-                raise ValueError(lines[3])
+                raise ValueError(lines[3][:80])
             st.w = lines[3][2:]
             l0 = lines[4].split(" ")
             l1 = lines[5].split(" ")
             if l0[0] != "L0" or l1[0] != "L1" or l0[2] != ":" or l1[2] != ":":
-                raise ValueError(lines[4])
+                raise ValueError(lines[4][:80])
             st.lists = (l0[3:], l1[3:])
             st.tops = (l0[1], l1[1])
             m = lines[6].split(" ")
             if m[0] != "marks" or m[1] != ":":
-                raise ValueError(lines[6])
+                raise ValueError(lines[6][:80])
             st.marks = m[2:]
             cells = {}
             for ln in lines[7:]:
                 c = ln.split(" ", 2)
                 if c[0] != "c":
-                    raise ValueError(ln)
+                    raise ValueError(ln[:80])
                 cells[c[1]] = c[2]
             st.cells = cells
         except (ValueError, IndexError) as e:
-            return states, trailer, "malformed block %d: %r" % (k, str(e)[:100])
+            raise DumpError("malformed block %d: %r" % (k, str(e)[:100]))
         st.body = "\n".join(lines[2:])
-        states.append(st)
+        yield st
+
+
+def parse_dump(text):
+    """-> (states, trailer_lines, error) for a complete (small) dump"""
+    body, trailer = split_trailer(text)
+    states = []
+    try:
+        for st in iter_dump(body):
+            states.append(st)
+    except DumpError as e:
+        return states, trailer, str(e)
     return states, trailer, None
 
 
@@ -130,6 +177,7 @@ class Oracle(object):
         self.freed = 0             # collections that freed >= 1 cell
         self.kept = 0              # collections that retained >= 1 cell
         self.collections = 0
+        self.parse_error = None    # the dump ended in a block that cannot be parsed
 
     def bad(self, idx, key, msg):
         if self.fail is None:
@@ -263,15 +311,59 @@ def reachable(cells, roots):
     return seen
 
 
+def light_step(o, prev, st, toks, oom, pend, base):
+    """one allocation / setter judged from the one-line summaries only (sparse dump mode).
+    pend: cells written since the last full dump (cell -> expected dump line); base: the cells
+    of that full dump.  -> False after recording a failure"""
+    i = st.idx
+    ps, cs = prev.summary(), st.summary()
+    op = toks[0]
+    if op == "alloc":
+        if oom:
+            if cs != ps:
+                return o.bad(i, "alloc:oom-state-changed", "bookkeeping changed across a skipped allocation: %s -> %s" % (ps, cs))
+            return True
+        if not st.res.startswith("ret "):
+            return o.bad(i, "alloc:result", "unexpected result line %r" % st.res)
+        a = st.res[4:]
+        if a == "0" or a != ps[0]:
+            return o.bad(i, "alloc:cell-not-free", "gc_alloc returned cell %s; the free chain started at %s" % (a, ps[0]))
+        w = int(ps[1]) if ps[1] in ("0", "1") else 0
+        if cs[1] != ps[1] or cs[2 + (1 - w)] != ps[2 + (1 - w)] or cs[2 + w] != str(int(ps[2 + w]) + 1):
+            return o.bad(i, "alloc:list-top", "after an allocation w/wb_top went from w=%s top=(%s,%s) to w=%s top=(%s,%s): "
+                         "the allocated-list did not grow by exactly one" % (ps[1], ps[2], ps[3], cs[1], cs[2], cs[3]))
+        if a in pend or a in base:
+            return o.bad(i, "alloc:cell-not-free", "gc_alloc returned cell %s which holds an object" % a)
+        pend[a] = expected_alloc(toks[1:])
+        return True
+    if op in ("collect", "run"):
+        return o.bad(i, "harness:dump", "collection without a full dump before and after it")
+    # setters: the summary may not move; the contents are checked at the next full dump
+    if cs != ps:
+        return o.bad(i, "setter:bookkeeping-changed", "%r changed free head / w_index / wb_top: %s -> %s" % (st.op, ps, cs))
+    cur = toks[2] if op in ("setref", "setsc") else toks[1]
+    line = pend.get(cur, base.get(cur))
+    a, new = expected_set(toks, {cur: line} if line is not None else {})
+    if new is None:
+        return o.bad(i, "setter:target", "target cell %s of %r does not hold the expected object" % (a, st.op))
+    pend[a] = new
+    return True
+
+
 def run_oracle(states):
-    """-> Oracle (fail = first violated rule, or None)"""
+    """states: iterable of State.  -> Oracle (fail = first violated rule, or None)"""
     o = Oracle()
-    if not states:
+    it = iter(states)
+    try:
+        s0 = next(it)
+    except StopIteration:
         return o
-    s0 = states[0]
+    except DumpError as e:
+        o.parse_error = str(e)
+        return o
     m = re.match(r"new (\d+)$", s0.op)
-    if not m:
-        o.bad(0, "harness:dump", "first block is not 'new <size>'")
+    if not m or s0.sparse:
+        o.bad(0, "harness:dump", "first block is not a full 'new <size>' block")
         return o
     size = int(m.group(1))
     allcells = set(str(i) for i in range(1, size))
@@ -281,13 +373,46 @@ def run_oracle(states):
         o.bad(0, "new:not-empty", "objects present right after gc_new")
         return o
     prev = s0
-    for st in states[1:]:
+    base = None          # the last full state while a stretch of sparse blocks is open
+    pend = None          # cells written during that stretch
+    while True:
+        try:
+            st = next(it)
+        except StopIteration:
+            break
+        except DumpError as e:
+            o.parse_error = str(e)
+            break
         i = st.idx
         toks = st.op.split(" ")
         oom = toks[-1] == "!oom"
         if oom:
             toks = toks[:-1]
         op = toks[0]
+        if st.sparse or prev.sparse:
+            # ---- sparse dump mode -------------------------------------------------------
+            if base is None:
+                base, pend = prev, {}
+            if not st.sparse and not check_wf(o, st, size, allcells):
+                return o
+            if not light_step(o, prev, st, toks, oom, pend, base.cells):
+                return o
+            if not st.sparse:
+                # a full dump closes the stretch: everything written since `base` must be there,
+                # nothing else may have changed
+                want = dict(base.cells)
+                want.update(pend)
+                if st.cells != want:
+                    diff = [c for c in set(want) | set(st.cells) if want.get(c) != st.cells.get(c)]
+                    o.bad(i, "alloc:cells-changed", "cells differ from the last full dump (op %d) + the %d cells written since: %s" % (
+                        base.idx, len(pend), sorted(diff, key=int)[:6]))
+                    return o
+                if set(st.free) != set(base.free) - set(pend):
+                    o.bad(i, "alloc:free-set", "free set is not the free set of op %d minus the cells handed out since" % base.idx)
+                    return o
+                base = pend = None
+            prev = st
+            continue
         same = st.body == prev.body
         if not same and not check_wf(o, st, size, allcells):
             return o
@@ -433,26 +558,24 @@ def first_diff(exp, out):
     return None
 
 
-def run_case(drv, hist_path, exp_text, timeout=300):
+def run_case(drv, hist_path, exp_text, timeout=300, sparse=0):
     """Execute one history against the real gc.c. -> dict(diff, oracle, crash, ...)"""
-    rc, out, err = common.sh([drv, hist_path], timeout=timeout, env=drv_env())
+    cmd = [drv] + (["--sparse", str(sparse)] if sparse else []) + [hist_path]
+    rc, out, err = common.sh(cmd, timeout=timeout, env=drv_env())
     if "LeakSanitizer has encountered a fatal error" in err or "LeakSanitizer does not work under ptrace" in err:
         # the environment forbids the leak checker (ptrace): everything else is still checked
-        rc, out, err = common.sh([drv, hist_path], timeout=timeout, env=drv_env(leaks=False))
+        rc, out, err = common.sh(cmd, timeout=timeout, env=drv_env(leaks=False))
     res = {"rc": rc, "diff": None, "crash": None, "fail": None, "freed": 0, "kept": 0, "stderr": err[-1500:]}
-    body = out
-    done = False
-    if body.endswith("# done\n"):
-        body = body[:-len("# done\n")]
-        done = True
+    done = out.endswith("# done\n")
+    body = out[:-len("# done\n")] if done else out
     if rc == 2:
         res["crash"] = "harness:history-format-error"
         return res
-    states, trailer, perr = parse_dump(body)
-    if perr and rc == 0:
-        res["crash"] = "harness:" + perr
+    dump, trailer = split_trailer(body)
+    o = run_oracle(iter_dump(dump))          # streaming: large dumps are never parsed as a whole
+    if o.parse_error and rc == 0:
+        res["crash"] = "harness:" + o.parse_error
         return res
-    o = run_oracle(states)
     res["fail"] = o.fail
     res["freed"], res["kept"] = o.freed, o.kept
     if body != exp_text:
@@ -465,9 +588,21 @@ def run_case(drv, hist_path, exp_text, timeout=300):
     return res
 
 
-def normalise(hist_path, out_hist):
-    """re-run a history through the model: drops rejected ops, recomputes !oom; -> (ok, expected dump)"""
-    rc, so, se = common.sh([RUN, "replay", hist_path, out_hist], timeout=300)
+def heap_size_of(hist_text):
+    m = re.search(r"^\s*size (\d+)\s*$", hist_text[:4000], re.M)
+    return int(m.group(1)) if m else 0
+
+
+def mode_for(hist_text):
+    """(use the reference allocator, sparse K) for a history"""
+    return (True, LARGE_K) if heap_size_of(hist_text) > LARGE_FROM else (False, 0)
+
+
+def normalise(hist_path, out_hist, sim=False, sparse=0):
+    """re-run a history through the model (sim: the reference allocator): drops rejected ops,
+    recomputes !oom; -> (ok, expected dump)"""
+    cmd = [RUN, "replay"] + (["--sim"] if sim else []) + (["--sparse", str(sparse)] if sparse else []) + [hist_path, out_hist]
+    rc, so, se = common.sh(cmd, timeout=600)
     return rc == 0, so, se
 
 
@@ -485,14 +620,18 @@ def merge_dist(acc, d):
 
 def worker(job):
     drv, workroot, jid, profile, seed, n, first = job
+    big = profile in ("large", "largesmall")
+    K = (LARGE_K if profile == "large" else 100) if big else 0
     t0 = time.time()
     wd = os.path.join(workroot, "job%d" % jid)
     shutil.rmtree(wd, ignore_errors=True)
     os.makedirs(wd)
     out = {"jid": jid, "profile": profile, "seed": seed, "n": 0, "dist": {}, "nontrivial": [], "diffs": [],
-           "fails": [], "crashes": [], "samples": [], "ops": 0, "error": None, "collections": 0}
+           "fails": [], "crashes": [], "samples": [], "ops": 0, "error": None, "collections": 0,
+           "simdiffs": [], "sizes": []}
     try:
-        rc, so, se = common.sh([RUN, "gen", str(seed), str(n), wd, profile, str(first)], timeout=1500)
+        rc, so, se = common.sh([RUN, "gen", str(seed), str(n), wd, profile, str(first)] + ([str(K)] if big else []),
+                               timeout=1500)
         if rc != 0:
             out["error"] = "generator failed rc=%d: %s" % (rc, se[-500:])
             return out
@@ -501,7 +640,18 @@ def worker(job):
             hp = os.path.join(wd, "case%d.hist" % i)
             hist = open(hp).read()
             exp = open(os.path.join(wd, "case%d.exp" % i)).read()
-            r = run_case(drv, hp, exp)
+            r = run_case(drv, hp, exp, sparse=K)
+            if big:
+                out["sizes"].append(heap_size_of(hist))
+            if profile == "largesmall":
+                # the reference allocator that predicts the large histories == the extracted model
+                rc2, so2, se2 = common.sh([RUN, "replay", "--sparse", str(K), hp], timeout=600)
+                if rc2 != 0 or so2 != exp or se2.strip():
+                    out["simdiffs"].append(dict(first_diff(exp, so2) or {}, gen_seed=seed, case=i, rc=rc2,
+                                                stderr=se2[-300:], history=hist[:20000]))
+            if profile == "large" and r["fail"] is not None:
+                # a prefix of a valid history is valid: keep only what is needed to fail
+                hist = "".join(hist.splitlines(True)[:r["fail"][0] + 1])
             out["n"] += 1
             out["ops"] += hist.count("\n") - 1
             tag = {"profile": profile, "gen_seed": seed, "case": i}
@@ -515,7 +665,8 @@ def worker(job):
             elif r["fail"] is not None:
                 out["fails"].append(dict(tag, key=r["fail"][1], op_index=r["fail"][0], what=r["fail"][2]))
             if r["diff"] is not None and len(out["diffs"]) < 3:
-                out["diffs"].append(dict(tag, history=hist if len(hist) < 20000 else hist[:20000] + "...", **r["diff"]))
+                out["diffs"].append(dict(tag, history=hist if len(hist) < 20000 else hist[:20000] + "...",
+                                         predicted_by="reference allocator sim" if big else "extracted model", **r["diff"]))
             elif r["diff"] is not None:
                 out["diffs"].append(dict(tag))
             if r["crash"] is not None:
@@ -558,8 +709,17 @@ def plan(tier, seed, extra=False):
         for first in range(0, 299, 23):
             k += 1
             jobs.append(("boundary", s(k), min(23, 299 - first), first))
+    if not extra:
+        # heaps around / above 2^16 cells (one history per job) + the same generator on small
+        # heaps, where the extracted model can follow
+        for first in range(20 if tier == "thorough" else 3):
+            k += 1
+            jobs.append(("large", s(k), 1, first))
+        for _ in range(6 if tier == "thorough" else 1):
+            k += 1
+            jobs.append(("largesmall", s(k), 20 if tier == "thorough" else 12, 0))
     # long jobs first: better load balance
-    order = {"long": 0, "boundary": 1, "mixed": 2, "tiny": 3}
+    order = {"large": -1, "long": 0, "boundary": 1, "largesmall": 1, "mixed": 2, "tiny": 3}
     jobs.sort(key=lambda j: order[j[0]])
     return jobs
 
@@ -574,10 +734,11 @@ def evaluate(drv, lines, wd, tag):
     norm = os.path.join(wd, "cand_%s.hist" % tag)
     with open(raw, "w") as f:
         f.write("\n".join(lines) + "\n")
-    ok, exp, se = normalise(raw, norm)
+    sim, sparse = mode_for(lines[0] + "\n")
+    ok, exp, se = normalise(raw, norm, sim=sim, sparse=sparse)
     if not ok:
         return None, None, None, None
-    r = run_case(drv, norm, exp, timeout=60)
+    r = run_case(drv, norm, exp, timeout=120 if sim else 60, sparse=sparse)
     return r["fail"], r["diff"], open(norm).read(), exp
 
 
@@ -652,9 +813,23 @@ def oomprobe(ctx, drv):
     ctx.coverage["oomprobe"] = res
 
 
+def triggerprobe(ctx, drv):
+    """`wb_top < mem_size * 0.8` (double) == `5*top < 4*size` (the model's gc_trigger) for heap sizes up
+    to 2^32-1, probed on a fake collector (gcdrive --triggerprobe)"""
+    rc, so, se = common.sh([drv, "--triggerprobe"], timeout=120, env=drv_env(leaks=False))
+    lines = [l for l in so.split("\n") if l.startswith("trigger ")]
+    bad = [l for l in lines if "MISMATCH" in l]
+    ctx.coverage["triggerprobe"] = {"sizes_probed": len(lines), "largest": 4294967295, "mismatches": len(bad)}
+    if rc != 0 or not lines or not so.endswith("# done\n") or bad:
+        ctx.correspondence_broken("gc-trigger-arithmetic", {"expected": "gc_run collects iff 5*top >= 4*size",
+                                                            "observed": (bad or [so[-600:]])[:5], "stderr": se[-600:], "rc": rc})
+
+
 def report_failure(ctx, drv, f, wd, do_shrink=True):
     """one oracle failure -> ctx.violation (shrunk)"""
     hist = f["history"]
+    if heap_size_of(hist) > LARGE_FROM:
+        do_shrink = False        # already cut after the failing operation; every run costs seconds
     small, runs = (shrink(drv, hist, f["key"], f["op_index"], wd) if do_shrink else (hist, 0))
     nf, nd, norm, exp = evaluate(drv, [l for l in small.split("\n") if l.strip() and not l.startswith("#")], wd, "rep")
     ok = exp is not None
@@ -662,13 +837,16 @@ def report_failure(ctx, drv, f, wd, do_shrink=True):
         nf, norm, ok = (f["op_index"], f["key"], f["what"]), hist, False
         with open(os.path.join(wd, "cand_rep.hist"), "w") as fh:
             fh.write(hist)
-    rc, obs, err = common.sh([drv, os.path.join(wd, "cand_rep.hist")], timeout=60, env=drv_env())
-    saved = save_corpus(f["key"], norm)
+    sim, sparse = mode_for(norm)
+    rc, obs, err = common.sh([drv] + (["--sparse", str(sparse)] if sparse else []) + [os.path.join(wd, "cand_rep.hist")],
+                             timeout=120, env=drv_env())
+    saved = save_corpus(f["key"], norm) if len(norm) < 300000 else None
     ctx.violation(f["key"], "gc.c violates the C09 oracle rule %s at operation %d of a %d-operation history: %s" % (
         nf[1], nf[0], norm.count("\n") - 1, nf[2]),
         {"case": {k: f.get(k) for k in ("profile", "gen_seed", "case")},
          "history": norm, "op_index": nf[0], "rule": nf[1],
-         "expected": "model dump:\n" + exp[-3000:] if ok else "(property oracle; see rule)",
+         "expected": ("reference allocator dump:\n" if sim else "model dump:\n") + exp[-3000:] if ok else "(property oracle; see rule)",
+         "heap_size": heap_size_of(norm),
          "observed": obs[-3000:], "stderr": err[-1500:],
          "original_history_ops": hist.count("\n") - 1, "shrink_runs": runs, "corpus_file": saved,
          "replay_cmd": "bin/check C09 --replay <this file>"})
@@ -687,11 +865,12 @@ def run_single(ctx, drv, path, wd, label):
     norm = os.path.join(wd, "single.hist")
     with open(raw, "w") as f:
         f.write("\n".join(lines) + "\n")
-    ok, exp, se = normalise(raw, norm)
+    sim, sparse = mode_for(text)
+    ok, exp, se = normalise(raw, norm, sim=sim, sparse=sparse)
     if not ok:
         ctx.correspondence_broken("history-unreadable:" + label, {"file": path, "error": se[-500:]})
         return 0, None, None
-    r = run_case(drv, norm, exp)
+    r = run_case(drv, norm, exp, sparse=sparse)
     hist = open(norm).read()
     if r["fail"] is not None:
         report_failure(ctx, drv, {"history": hist, "key": r["fail"][1], "op_index": r["fail"][0], "what": r["fail"][2],
@@ -799,12 +978,15 @@ def run(ctx):
     ctx.coverage["corpus_histories"] = corpus_n
 
     oomprobe(ctx, drv)
+    triggerprobe(ctx, drv)
 
     # -- generated histories -----------------------------------------------------------------
     dist = {}
     all_fails, all_diffs, all_crashes, errors = [], [], [], []
     total_ops = 0
     ndiff_cases = 0
+
+    simdiffs, large_sizes, nsmall = [], [], [0]
 
     def campaign(jobs, jid0):
         nonlocal evaluations, total_ops, ndiff_cases
@@ -821,6 +1003,9 @@ def run(ctx):
                 ndiff_cases += len(out["diffs"])
                 all_diffs.extend([d for d in out["diffs"] if "line" in d])
                 all_crashes.extend(out["crashes"])
+                simdiffs.extend(out["simdiffs"])
+                large_sizes.extend(out["sizes"] if out["profile"] == "large" else [])
+                nsmall[0] += out["n"] if out["profile"] == "largesmall" else 0
                 if out["error"]:
                     errors.append({"job": out["jid"], "profile": out["profile"], "seed": out["seed"], "error": out["error"]})
 
@@ -838,7 +1023,16 @@ def run(ctx):
     if dist.get("events", {}).get("model_fuel", 0) or dist.get("events", {}).get("model_bad", 0):
         ctx.notes["model_fuel_or_bad"] = True
 
+    ctx.coverage["large_profile"] = {
+        "histories": len(large_sizes), "heap_sizes": sorted(large_sizes), "sparse_full_dump_every": LARGE_K,
+        "predicted_by": "imperative reference allocator `sim` in harness/ocaml/gc/gcrun.ml, NOT the extracted model "
+                        "(quadratic: minutes per 70000-cell history); oracle rules run on every full dump, per-op "
+                        "summaries (return value = old free head, wb_top + 1) in between",
+        "sim_vs_extracted_model": {"histories": nsmall[0], "differences": len(simdiffs)}}
+
     # -- findings ----------------------------------------------------------------------------
+    if simdiffs:
+        ctx.correspondence_broken("gc-sim-vs-extracted-model", simdiffs[0])
     if errors:
         ctx.correspondence_broken("c09-worker-error", errors[0])
     if all_diffs:
